@@ -20,16 +20,15 @@ enum Case {
 
 const ARRAY_NS: [usize; 14] = [0, 1, 2, 3, 4, 8, 10, 12, 16, 21, 24, 32, 33, 64];
 
+/// lengths that get the full offset-pair treatment
 fn lengths(cid: Cid, t: Tier) -> Vec<usize> {
     let mut ns: Vec<usize> = (0..=4).collect();
     ns.extend(wb_lengths(cid.bits(), 2));
-    if t.thorough() {
-        for sid in Sid::ALL {
+    for sid in Sid::ALL {
+        if t.thorough() {
             ns.extend(1..=max_k(cid, sid));
-        }
-    } else {
-        for sid in Sid::ALL {
-            ns.extend(k_set(cid, sid, false));
+        } else {
+            ns.extend(reduced_k_set(cid, sid));
         }
     }
     ns.sort();
@@ -41,13 +40,27 @@ fn gen(t: Tier, _seed: u64, emit: &mut dyn FnMut(Case)) {
     for cid in Cid::ALL {
         let nof = noff(cid.bits());
         let special: Vec<usize> = vec![0, 1, nof / 2 + 1, nof - 1];
-        for n in lengths(cid, t) {
+        let full = lengths(cid, t);
+        for n in &full {
             for s1 in 0..nof {
                 for s2 in 0..nof {
                     if t.thorough() || special.contains(&s1) || special.contains(&s2) || s1 == s2 {
-                        emit(Case::Pair { cid, n, s1, s2 });
+                        emit(Case::Pair { cid, n: *n, s1, s2 });
                     }
                 }
+            }
+        }
+        // every other K that fits some storage: k-mer equality and hashing at a few offset pairs
+        for n in 1..=max_k(cid, Sid::U128) {
+            if !full.contains(&n) {
+                for (s1, s2) in [(0, 0), (1, nof - 1), (nof / 2 + 1, 1), (nof - 1, nof / 2 + 1)] {
+                    emit(Case::Pair { cid, n, s1, s2 });
+                }
+            }
+        }
+        for n in long_lengths(cid.bits()) {
+            for (s1, s2) in [(0, 0), (1, nof - 1), (nof / 2 + 1, 1), (nof - 1, nof / 2 + 1), (0, 1)] {
+                emit(Case::Pair { cid, n, s1, s2 });
             }
         }
         for n in ARRAY_NS {
